@@ -94,6 +94,33 @@ def is_minkowski(lattice, tol=1e-9):
     return True
 
 
+_UNIMOD = {}
+
+
+def pairwise_stall_bases(lattice, tol=1e-8):
+    """3D only: unimodular U (entries in {-1,0,1}) for which the description L U passes every pairwise test
+    |a_i.a_j| <= (1/2 + tol) min(|a_i|^2, |a_j|^2) although some a_k + s a_i + s' a_j (s, s' = +-1) is strictly shorter
+    than a_k: descriptions on which a purely pairwise reduction stops without being Minkowski-reduced."""
+    L = np.asarray(lattice, dtype=float)
+    if L.shape[0] != 3:
+        return []
+    if 3 not in _UNIMOD:
+        ms = np.array(list(itertools.product((-1, 0, 1), repeat=9)), dtype=int).reshape(-1, 3, 3)
+        _UNIMOD[3] = ms[np.abs(np.round(np.linalg.det(ms))) == 1]
+    Us = _UNIMOD[3]
+    g = np.einsum('nji,jk,nkl->nil', Us, L.T @ L, Us)
+    ok = np.ones(len(Us), dtype=bool)
+    for i in range(3):
+        for j in range(i + 1, 3):
+            ok &= np.abs(g[:, i, j]) <= (0.5 + tol) * np.minimum(g[:, i, i], g[:, j, j])
+    short = np.zeros(len(Us), dtype=bool)
+    for k in range(3):
+        i, j = [x for x in range(3) if x != k]
+        for s0, s1 in itertools.product((1, -1), repeat=2):
+            short |= g[:, i, i] + g[:, j, j] + 2 * (s0 * g[:, i, k] + s1 * g[:, j, k] + s0 * s1 * g[:, i, j]) < -1e-8 * g[:, k, k]
+    return [U.copy() for U in Us[ok & short]]
+
+
 def same_lattice(L1, L2, tol=1e-7):
     """True when the columns of L1 and L2 generate the same point lattice"""
     A = np.linalg.solve(np.asarray(L1, dtype=float), np.asarray(L2, dtype=float))
@@ -321,3 +348,24 @@ def bz_excess(recip, kpts, rng=3):
     kn = np.linalg.norm(kpts, axis=1)
     dist = np.linalg.norm(kpts[:, None, :] - Gs[None, :, :], axis=2)
     return kn - dist.min(axis=1)
+
+
+def relevant_vectors(recip, rng=3, tol=1e-9):
+    """Voronoi-relevant reciprocal lattice vectors (face normals of the first Brillouin zone) as integer index vectors
+    n (G = recip n), in the enumeration order of itertools.product(range(-rng, rng+1)): G is relevant when G/2 is
+    strictly closer to 0 (and G) than to every other lattice point of the search box"""
+    recip = np.asarray(recip, dtype=float)
+    d = recip.shape[0]
+    ns = np.array([n for n in itertools.product(range(-rng, rng + 1), repeat=d) if any(n)], dtype=int)
+    Gs = ns @ recip.T
+    G2 = np.einsum('ij,ij->i', Gs, Gs)
+    dots = Gs @ Gs.T  # G_a . G_b
+    scale = G2.max()
+    out = []
+    for a in range(len(ns)):
+        # G_a . G_b < G_b . G_b for all b != a
+        viol = dots[a] >= G2 - tol * scale
+        viol[a] = False
+        if not viol.any():
+            out.append(ns[a].copy())
+    return out
